@@ -701,14 +701,24 @@ func Emit(p *ps.Program, pkg, fnsPkg string) *Files {
 		fmt.Fprintf(&hdr, "\tfx %q\n", fnsPkg)
 	}
 	hdr.WriteString("\t\"verifprog/rt\"\n")
+	tyTwice := false
 	if regexp.MustCompile(`\b` + e.tyAlias + `\.`).MatchString(body) {
 		if p.TyAlias {
 			hdr.WriteString("\ttyy \"verifprog/ty\"\n")
 		} else {
 			hdr.WriteString("\t\"verifprog/ty\"\n")
 		}
+		if p.PID%4 == 3 {
+			// the same package under a second local name (legal Go): the qualifier the generator
+			// prints for its types must not depend on anything but the file
+			hdr.WriteString("\tty2nd \"verifprog/ty\"\n")
+			tyTwice = true
+		}
 	}
 	hdr.WriteString(")\n\n")
+	if tyTwice {
+		hdr.WriteString("var _ = ty2nd.MkT8\n\n")
+	}
 	header := hdr.String()
 	shift := strings.Count(header, "\n") + 1 // 1-based lines
 	lineK := map[int]int{}
